@@ -109,6 +109,26 @@ Lemma bwp_same P lvl x y :
   a_algos x = a_algos y -> a_rbase x = a_rbase y -> a_status x = a_status y -> bwp P lvl x = bwp P lvl y.
 Proof. intros H1 H2 H3. unfold bwp. now rewrite H1, H2, H3. Qed.
 
+(* ------------------------------------------------------------------ asset operations leave accounts alone *)
+Definition same_view (c c' : cow) : Prop := forall b, lookup c' b = lookup c b.
+Lemma same_view_refl c : same_view c c. Proof. intro; reflexivity. Qed.
+Lemma same_view_trans a b c : same_view a b -> same_view b c -> same_view a c.
+Proof. intros H1 H2 x. now rewrite H2, H1. Qed.
+Lemma sv_ph c a i d : same_view c (put_holding_delta c a i d). Proof. intro; reflexivity. Qed.
+Lemma sv_pp c a i d : same_view c (put_params_delta c a i d). Proof. intro; reflexivity. Qed.
+Lemma sv_cr c i v : same_view c (set_creatable c i v). Proof. intro; reflexivity. Qed.
+
+Lemma asset_params_view i c : same_view c (fst (asset_params i c)).
+Proof. apply (keeps_asset_params same_view same_view_refl same_view_trans). Qed.
+Lemma take_out_view a i amt bp c : same_view c (fst (take_out a i amt bp c)).
+Proof. apply (keeps_take_out same_view same_view_refl same_view_trans sv_ph). Qed.
+Lemma put_in_view a i amt bp c : same_view c (fst (put_in a i amt bp c)).
+Proof. apply (keeps_put_in same_view same_view_refl same_view_trans sv_ph). Qed.
+Lemma asset_freeze_view s i acct fr c : same_view c (fst (asset_freeze s i acct fr c)).
+Proof. apply (keeps_asset_freeze same_view same_view_refl same_view_trans sv_ph). Qed.
+Lemma some_or_fail_ok {A} (o : option A) c c' a : some_or_fail o c = (c', Ok a) -> c' = c /\ o = Some a.
+Proof. destruct o; cbn [some_or_fail]; unfold ret, fail; intros H; inversion H; auto. Qed.
+
 (* ------------------------------------------------------------------ the invariant *)
 Section Conserve.
   Variable E : env.
@@ -155,6 +175,24 @@ Section Conserve.
     - apply wfc_put; auto; [rewrite H1|rewrite H2]; apply Hw.
     - pose proof (tot_put c a x Hin). lia.
   Qed.
+
+  (* the same for an account that need not be in the universe *)
+  Lemma Inv_put_same_any T c a x : Inv T c ->
+    a_algos x = a_algos (lookup c a) -> a_rbase x = a_rbase (lookup c a) ->
+    bwp P lvl x = bwp P lvl (lookup c a) -> Inv T (put c a x).
+  Proof.
+    intros HI H1 H2 H3. destruct (in_dec N.eq_dec a U) as [Hin|Hnin]; [now apply Inv_put_same|].
+    destruct HI as [Hw Ht]. split.
+    - apply wfc_put; auto; [rewrite H1|rewrite H2]; apply Hw.
+    - rewrite <- Ht. apply sumf_ext. intros b Hb. rewrite lookup_put_other; [reflexivity|]. intro. subst. contradiction.
+  Qed.
+
+  Lemma Inv_view T c c' : same_view c c' -> Inv T c -> Inv T c'.
+  Proof. intros H. apply Inv_ext. exact H. Qed.
+
+  (* a counter-only update of the record just read *)
+  Lemma Inv_put_counts T c a ap ast : Inv T c -> Inv T (put c a (set_asset_counts (lookup c a) ap ast)).
+  Proof. intros HI. apply Inv_put_same_any; auto. Qed.
 
   Tactic Notation "mstep" hyp(H) "as" ident(c) ident(v) ident(H1) :=
     apply bind_ok in H; destruct H as (c & v & H1 & H).
@@ -339,6 +377,100 @@ Section Conserve.
       unfold m_put in H. inversion H. subst c'. apply Hput.
   Qed.
 
+  (* ---------------------------------------------------------------- assets *)
+  Ltac viewstep Hm lem :=
+    let K := fresh "K" in pose proof lem as K; rewrite Hm in K; cbn [fst] in K.
+
+  Lemma m_del_holding_ok a i c c' u : m_del_holding a i c = (c', Ok u) -> same_view c c'.
+  Proof. unfold m_del_holding. destruct (in_mods c a); intros H; inversion H; intro; reflexivity. Qed.
+  Lemma m_del_params_ok a i c c' u : m_del_params a i c = (c', Ok u) -> same_view c c'.
+  Proof. unfold m_del_params. destruct (in_mods c a); intros H; inversion H; intro; reflexivity. Qed.
+
+  Lemma asset_config_spec sender asset cp ctr c c' u T :
+    Inv T c -> asset_config E sender asset cp ctr c = (c', Ok u) -> Inv T c'.
+  Proof.
+    intros HI H. unfold asset_config in H. destruct (asset =? 0).
+    - mstep H as c1 record Hl. mlook Hl.
+      mstep H as c2 present Hp. unfold m_get_params in Hp. inversion Hp. subst c2 present. clear Hp.
+      mstep H as c3 u3 G1. mguard G1. mstep H as c4 u4 G2. mguard G2.
+      mstep H as c5 u5 Hput. unfold m_put in Hput. inversion Hput. subst c5. clear Hput.
+      mstep H as c6 u6 H6. unfold m_put_params in H6. inversion H6. subst c6. clear H6.
+      mstep H as c7 u7 H7. unfold m_put_holding in H7. inversion H7. subst c7. clear H7.
+      unfold m_set_creatable in H. inversion H. subst c'. clear H.
+      eapply Inv_view; [|apply Inv_put_counts; exact HI].
+      intro b. reflexivity.
+    - mstep H as c1 pc Hap. viewstep Hap (asset_params_view asset c). destruct pc as [params creator].
+      mstep H as c2 u2 G1. mguard G1.
+      assert (I1 : Inv T c1) by (eapply Inv_view; eauto).
+      destruct (ap_is_zero cp).
+      + mstep H as c3 record Hl. mlook Hl.
+        mstep H as c4 u4 G2. mguard G2. mstep H as c5 u5 G3. mguard G3.
+        mstep H as c6 h Hh. unfold m_get_holding in Hh. inversion Hh. subst c6 h. clear Hh.
+        mstep H as c7 u7 G4. mguard G4.
+        mstep H as c8 u8 Hput. unfold m_put in Hput. inversion Hput. subst c8. clear Hput.
+        mstep H as c9 u9 H9. unfold m_set_creatable in H9. inversion H9. subst c9. clear H9.
+        mstep H as c10 u10 H10. apply m_del_holding_ok in H10. apply m_del_params_ok in H.
+        eapply Inv_view; [exact H|]. eapply Inv_view; [exact H10|].
+        eapply Inv_view; [|apply Inv_put_counts; exact I1]. intro b. reflexivity.
+      + unfold m_put_params in H. inversion H. subst c'. eapply Inv_view; [|exact I1]. intro b. reflexivity.
+  Qed.
+
+  Lemma asset_freeze_spec sender asset acct fr c c' u T :
+    Inv T c -> asset_freeze sender asset acct fr c = (c', Ok u) -> Inv T c'.
+  Proof.
+    intros HI H. viewstep H (asset_freeze_view sender asset acct fr c). eapply Inv_view; eauto.
+  Qed.
+
+  Lemma asset_transfer_spec sender asset amt asender rcv closeto c c' u T :
+    Inv T c -> asset_transfer E sender asset amt asender rcv closeto c = (c', Ok u) -> Inv T c'.
+  Proof.
+    intros HI H. unfold asset_transfer in H.
+    mstep H as c1 sc Hsc.
+    assert (I1 : Inv T c1).
+    { destruct (asender =? 0).
+      - unfold ret in Hsc. inversion Hsc. now subst.
+      - mstep Hsc as k1 pc Hap. viewstep Hap (asset_params_view asset c).
+        mstep Hsc as k2 u2 G. mguard G. unfold ret in Hsc. inversion Hsc. subst c1. eapply Inv_view; eauto. }
+    destruct sc as [source clawback].
+    mstep H as c2 u2 Hopt.
+    assert (I2 : Inv T c2).
+    { apply when_ok in Hopt. destruct Hopt as [[_ Hopt]|[_ ->]]; [|assumption].
+      mstep Hopt as k1 h Hh. unfold m_get_holding in Hh. inversion Hh. subst k1 h. clear Hh.
+      destruct (get_holding c1 source asset).
+      - unfold ret in Hopt. inversion Hopt. now subst.
+      - mstep Hopt as k2 pc Hap. viewstep Hap (asset_params_view asset c1).
+        assert (Ik : Inv T k2) by (eapply Inv_view; eauto).
+        mstep Hopt as k3 record Hl. mlook Hl.
+        mstep Hopt as k4 u4 G. mguard G.
+        mstep Hopt as k5 u5 Hput. unfold m_put in Hput. inversion Hput. subst k5. clear Hput.
+        unfold m_put_holding in Hopt. inversion Hopt. subst c2.
+        eapply Inv_view; [|apply Inv_put_counts; exact Ik]. intro b. reflexivity. }
+    mstep H as c3 u3 Hto. viewstep Hto (take_out_view source asset amt clawback c2).
+    mstep H as c4 u4 Hpi. viewstep Hpi (put_in_view rcv asset amt clawback c3).
+    assert (I4 : Inv T c4) by (eapply Inv_view; [exact K0|]; eapply Inv_view; eauto).
+    destruct (closeto =? 0).
+    - unfold ret in H. inversion H. now subst.
+    - mstep H as c5 u5 G1. mguard G1.
+      mstep H as c6 record Hl. mlook Hl.
+      mstep H as c7 u7 G2. mguard G2.
+      mstep H as c8 own Ho. unfold m_get_params in Ho. inversion Ho. subst c8 own. clear Ho.
+      mstep H as c9 u9 G3. mguard G3.
+      mstep H as c10 h Hh. unfold m_get_holding in Hh. inversion Hh. subst c10 h. clear Hh.
+      mstep H as c11 hh Hs. apply some_or_fail_ok in Hs. destruct Hs as [-> Hs].
+      mstep H as c12 dst Hd. unfold m_get_params in Hd. inversion Hd. subst c12 dst. clear Hd.
+      mstep H as c13 u13 Hto2.
+      match type of Hto2 with take_out ?a ?i ?m ?b ?c = _ => viewstep Hto2 (take_out_view a i m b c) end.
+      mstep H as c14 u14 Hpi2.
+      match type of Hpi2 with put_in ?a ?i ?m ?b ?c = _ => viewstep Hpi2 (put_in_view a i m b c) end.
+      mstep H as c15 h2 Hh2. unfold m_get_holding in Hh2. inversion Hh2. subst c15 h2. clear Hh2.
+      mstep H as c16 u16 G4. mguard G4.
+      mstep H as c17 u17 Hput. unfold m_put in Hput. inversion Hput. subst c17. clear Hput.
+      apply m_del_holding_ok in H. eapply Inv_view; [exact H|].
+      assert (I14 : Inv T c14) by (eapply Inv_view; [exact K2|]; eapply Inv_view; eauto).
+      assert (Hrec : lookup c6 source = lookup c14 source) by (now rewrite K2, K1).
+      rewrite Hrec. apply Inv_put_counts. exact I14.
+  Qed.
+
   (* ---------------------------------------------------------------- applyTransaction *)
   (* every address the transaction names is inside the universe; amounts are uint64 *)
   Definition tx_ok (tx : txn) : Prop :=
@@ -349,8 +481,8 @@ Section Conserve.
     end.
 
   (* txn_conserves: payment (with or without close), keyreg, with fee and rekey *)
-  Lemma apply_transaction_spec tx c c' ad T :
-    tx_ok tx -> Inv T c -> apply_transaction E tx c = (c', Ok ad) -> Inv T c'.
+  Lemma apply_transaction_spec tx ctr c c' ad T :
+    tx_ok tx -> Inv T c -> apply_transaction E tx ctr c = (c', Ok ad) -> Inv T c'.
   Proof.
     intros (Hfee & Hs & Hk & Hbody) HI H. unfold apply_transaction in H.
     mstep H as c1 ad1 H1. mstep H as c2 u2 H2.
@@ -360,6 +492,9 @@ Section Conserve.
     - destruct Hbody as [Hamt Hp]. eapply payment_spec; [exact Hamt|exact Hp|exact I2|exact H].
     - mstep H as c3 u3 H3. unfold ret in H. inversion H. subst c'.
       eapply keyreg_spec; [exact Hs|exact I2|exact S2|exact H3].
+    - mstep H as c3 u3 H3. unfold ret in H. inversion H. subst c'. eapply asset_config_spec; eauto.
+    - mstep H as c3 u3 H3. unfold ret in H. inversion H. subst c'. eapply asset_transfer_spec; eauto.
+    - mstep H as c3 u3 H3. unfold ret in H. inversion H. subst c'. eapply asset_freeze_spec; eauto.
     - discriminate.
   Qed.
 
@@ -380,7 +515,8 @@ Section Conserve.
     tx_ok tx -> Inv T c -> transaction E tx c = (c', Ok u) -> Inv T c'.
   Proof.
     intros Hok HI H. unfold transaction in H.
-    mstep H as c1 u1 H1. mstep H as c2 ad H2. mstep H as c3 u3 H3.
+    mstep H as c1 u1 H1. mstep H as c1' ctr Hctr. unfold m_counter in Hctr. inversion Hctr. subst c1' ctr. clear Hctr.
+    mstep H as c2 ad H2. mstep H as c3 u3 H3.
     unfold m_addtx in H. inversion H. subst c'. clear H.
     assert (c1 = c).
     { apply when_ok in H1. destruct H1 as [[_ H1]|[_ ->]]; [|reflexivity]. now apply transaction_pre_pure in H1. }
